@@ -1,5 +1,7 @@
 import EdpVerif.Lemmas.Receiver
+import EdpVerif.Lemmas.ReceiverRecv
 import EdpVerif.Generated.Control
+import EdpVerif.Generated.Misc
 /-!
 C19 — inbound routing is exact and the connection's receiver outlives bad input.
 
@@ -230,6 +232,42 @@ theorem C19_unrouted_kinds_change_nothing (st : NodeSt) (tag : Int) (args : List
 example : (99 : Int).toNat ∉ [2, 3, 6, 8, 12, 13, 16, 18, 21] ∧ (19 : Int).toNat ∉ [2, 3, 6, 8, 12, 13, 16, 18, 21] := by
   decide
 
+/-- the routing table as written in node.rs on this run (`Generated/Misc.lean` `ROUTE_ARMS`): a variant is routed by the arm
+whose pattern names it — by which fields, through which lookups, into which `Message` -/
+def armOfSource (v : String) : Arm :=
+  match Gen.ROUTE_ARMS.find? (fun a => a.1.contains v) with
+  | some (_, fields, msg, lookups) =>
+    if msg = "Regular" ∧ fields = ["to_pid"] ∧ lookups = ["get", "rpc"] then .send
+    else if msg = "Regular" ∧ fields = ["to_name"] ∧ lookups = ["whereis", "get"] then .regSend
+    else if msg = "Exit" ∧ fields = ["from_pid", "reason", "to_pid"] ∧ lookups = ["get"] then .exit
+    else if msg = "MonitorExit" ∧ fields = ["from_proc", "reason", "reference", "to_pid"] ∧ lookups = ["get"] then .monitorExit
+    else .ignored
+  | none => .ignored
+
+/-- the protocol's table (erl_dist_protocol): SEND 2 / SEND_TT 12 carry a message for a pid, REG_SEND 6 / REG_SEND_TT 16 for a
+name, EXIT 3 / EXIT2 8 / EXIT_TT 13 / EXIT2_TT 18 an exit signal, MONITOR_P_EXIT 21 a monitor notification; no other operation
+this library negotiates addresses a process with something to deliver -/
+def specRoute : Nat → Arm
+  | 2 => .send | 12 => .send
+  | 6 => .regSend | 16 => .regSend
+  | 3 => .exit | 8 => .exit | 13 => .exit | 18 => .exit
+  | 21 => .monitorExit
+  | _ => .ignored
+
+/-- **the routing table is the source's and the protocol's**: for every variant of `ControlMessage` the model's `armOf` is the
+arm written in `route_message` (dropping a variant from a pattern, reading another field, sending another `Message` or
+skipping a lookup changes `ROUTE_ARMS` and breaks this), for every operation number of `ControlMessageType` it is what the
+protocol says; unlisted variants fall into `_ => {}`; the errors the loop survives and the idle limit are the model's -/
+theorem C19_route_table_is_the_sources_and_the_protocols :
+    (∀ v ∈ T.variants.map (·.1) ++ ["Generic", "NoSuchVariant"], armOf v = armOfSource v) ∧
+    (∀ p ∈ T.enumTags, armOf p.1 = specRoute p.2) ∧
+    Gen.ROUTE_DEFAULT_IGNORED = true ∧
+    Gen.RECEIVER_SKIPPED_ERRORS = ["Decode", "InvalidControlMessage", "Protocol"] ∧
+    Gen.NODE_NET_TICK_TIME_MS = idleLimitMs := by
+  decide
+
+example : armOfSource "Exit2Tt" = .exit ∧ armOfSource "MonitorP" = .ignored ∧ specRoute 16 = .regSend := by decide
+
 /-- **exactly one recipient**: whatever arrives — any control message, any payload, any registry — routing does
 nothing, or appends one message to the mailbox of one live process, or hands one message to one outstanding call -/
 theorem C19_at_most_one_recipient (st : NodeSt) (m : Control.Msg) (payload : Option Term) :
@@ -309,17 +347,53 @@ theorem C19_mailboxes_only_grow (x : Ext) (bodies : List Bytes) (st : NodeSt) (k
 /-! ## from the bytes of a frame -/
 
 /-- the fate of a frame is a function of its bytes alone (`classify` has no other argument): a pass-through body whose
-control term decodes to `ct` (a control tuple) and whose message decodes to `p` is routed as `(ct, p)`; an empty rest
-means no message. No state of the receiver enters. -/
+control term decodes to `ct` (a control tuple) and whose message decodes to `p` with nothing after it is routed as `(ct, p)`;
+an empty rest means no message. No state of the receiver enters. -/
 theorem C19_frame_fate_is_in_its_bytes (x : Ext) (st : NodeSt) (r rest : Bytes) (ct : Term) (m : Control.Msg)
     (hd : decodeTrailing x r = .ok (ct, rest)) (hm : Control.parse T ct = .ok m) :
     (rest = [] → step st (classify x T (112 :: r)) = .ok (routeCtl T st ct none)) ∧
-    (∀ p rr, rest ≠ [] → decodeTrailing x rest = .ok (p, rr) →
+    (∀ p, rest ≠ [] → decodeTrailing x rest = .ok (p, []) →
       step st (classify x T (112 :: r)) = .ok (routeCtl T st ct (some p))) := by
-  obtain ⟨h1, h2⟩ := classify_pass x T r rest ct m hd hm
+  obtain ⟨h1, h2, _⟩ := classify_pass x T r rest ct m hd hm
   constructor
   · intro h0; rw [h1 h0]; simp [step, routeCtl, hm]
-  · intro p rr h0 hp; rw [h2 p rr h0 hp]; simp [step, routeCtl, hm]
+  · intro p h0 hp; rw [h2 p h0 hp]; simp [step, routeCtl, hm]
+
+/-- bytes after the payload term (connection.rs: `DecodeError::TrailingData`): the frame is not delivered to anybody, no
+state changes, and the loop goes on with the next frame (the stream is at a frame boundary) -/
+theorem C19_trailing_bytes_after_payload_skip_the_frame (x : Ext) (st : NodeSt) (r rest rr : Bytes) (ct p : Term)
+    (m : Control.Msg) (hd : decodeTrailing x r = .ok (ct, rest)) (hm : Control.parse T ct = .ok m)
+    (h0 : rest ≠ []) (h1 : rr ≠ []) (hp : decodeTrailing x rest = .ok (p, rr)) :
+    classify x T (112 :: r) = .error .decode ∧ step st (classify x T (112 :: r)) = .ok st ∧
+      Survivable x T (112 :: r) := by
+  obtain ⟨_, _, h3⟩ := classify_pass x T r rest ct m hd hm
+  have hc := h3 p rr h0 h1 hp
+  refine ⟨hc, by rw [hc]; rfl, ?_⟩
+  intro e he
+  rw [hc] at he
+  cases he
+  rfl
+
+/-- non-vacuity: `112, {2, '', <n.1.0>}, 7` followed by one more byte -/
+example :
+    let p : PidF := ⟨[110], 1, 0, 3, none⟩
+    let r : Bytes := [131, 104, 3, 97, 2, 119, 0, 88, 119, 1, 110, 0, 0, 0, 1, 0, 0, 0, 0, 0, 0, 0, 3, 131, 97, 7, 255]
+    decodeTrailing Ext.none r = .ok (.tuple [.int 2, .atom [], .pid p], [131, 97, 7, 255]) ∧
+    decodeTrailing Ext.none [131, 97, 7, 255] = .ok (.int 7, [255]) := by
+  have v0 : validUtf8 [] = true := by decide
+  have v1 : validUtf8 [110] = true := by decide
+  refine ⟨?_, ?_⟩
+  · simp [decodeTrailing, Ext.none, dec, decN, MAX_NESTING_DEPTH, MAX_ATOM_SIZE, rdU, rdN, decAtomBody, takeE, takeN, v0, v1]
+  · simp [decodeTrailing, Ext.none, dec, MAX_NESTING_DEPTH, rdU, rdN]
+
+/-- one Rust function, two models: `classify` here and `Recv.recvRH` of property C06 (`Impl/Recv.lean`) give the same result
+on every frame body, for every control table (the C06 model has one error class and reads an empty body as "no result") -/
+theorem C19_classify_is_the_c06_model (x : Ext) (tbl : Control.Table) (body : Bytes) :
+    toRecvRes (classify x tbl body) = Recv.recvRH x tbl body :=
+  classify_eq_recvRH x tbl body
+
+example : toRecvRes (classify Ext.none T [113, 1]) = some .err := by
+  simp [classify, toRecvRes]
 
 /-- non-vacuity from real bytes: the frame body `112, {2, '', <n.1.0>}, 7` (a SEND with message 7) decodes, parses and is
 delivered to the process it names -/
